@@ -241,6 +241,17 @@ fn classify_escaped_key(f: &llguidance::ParserFactory, g: &GCase, out: &[u8]) ->
         if b[i] == b'\\' && i + 1 < b.len() {
             if b[i + 1] == b'u' && i + 6 <= b.len() {
                 if let Ok(cp) = u32::from_str_radix(&text[i + 2..i + 6], 16) {
+                    // a surrogate pair written as two escapes is one character
+                    if (0xD800..0xDC00).contains(&cp) && i + 12 <= b.len() && &text[i + 6..i + 8] == "\\u" {
+                        if let Ok(lo) = u32::from_str_radix(&text[i + 8..i + 12], 16) {
+                            if (0xDC00..0xE000).contains(&lo) {
+                                plain.push(char::from_u32(0x10000 + ((cp - 0xD800) << 10) + (lo - 0xDC00))?);
+                                n += 1;
+                                i += 12;
+                                continue;
+                            }
+                        }
+                    }
                     if cp >= 0x20 && cp != 0x22 && cp != 0x5C && cp != 0x7F && !(0xD800..0xE000).contains(&cp) {
                         plain.push(char::from_u32(cp)?);
                         n += 1;
